@@ -112,12 +112,13 @@ class HeaderBlock:
 class _Line:
     def __init__(self, v, i):
         self.v = v
-        kind = v.choose(5, 'line-kind')
-        # 0: no ": " separator; 1: an allowed content header in some letter case; 2: a header that is not allowed;
-        # 3: Content-Transfer-Encoding: binary; 4: Content-Transfer-Encoding: something else
+        kind = v.choose(6, 'line-kind')
+        # 0: no ": " separator; 1 / 5: an allowed content header in some letter case (Content-Type / Content-Disposition); 2: a header that is
+        # not allowed; 3: Content-Transfer-Encoding: binary; 4: Content-Transfer-Encoding: something else
         self.kind = kind
         self.value = v.bytes('header_value%d' % i)
-        self.name = {1: b'Content-Type', 2: b'X-Custom', 3: b'Content-Transfer-Encoding', 4: b'content-transfer-encoding'}.get(kind, b'garbage')
+        self.name = {1: b'Content-Type', 2: b'X-Custom', 3: b'Content-Transfer-Encoding', 4: b'content-transfer-encoding',
+                     5: b'CONTENT-Disposition'}.get(kind, b'garbage')
         if kind == 3:
             self.value = b'binary'
         if kind == 4 and not v.concrete:
@@ -173,7 +174,8 @@ class FormStream:
         self._maybe_fail('read_until')
         if delimiter == b'\r\n\r\n':
             self.v.check('header-block-read-with-the-configured-cap', size is self.opts.max_body_part_headers_size or size == self.opts.max_body_part_headers_size)
-            return self._ret(HeaderBlock(self.v))
+            self.block = HeaderBlock(self.v)  # the header block of the part being built (the specification side reads its lines)
+            return self._ret(self.block)
         return self._ret(b'')
 
     def delimit(self, delimiter):
@@ -231,6 +233,12 @@ def _form_iter(asgi):
             v.check('part-gets-a-stream-delimited-at-the-next-boundary-and-the-form-options', stream[0] == 'part-stream' and parse_options is opts)
             for k, val in headers.items():
                 v.check('only-allowed-content-headers-are-kept-lower-cased', k in ALLOWED and k == k.lower())
+            # ... and every one of them IS kept, with its value (the accessors name / filename / content_type read them): a later line wins
+            want = {}
+            for ln in st.block.lines:
+                if ln.kind != 0 and ln.name.lower() in ALLOWED:
+                    want[ln.name.lower()] = ln.value
+            v.check('every-allowed-content-header-line-is-kept-with-its-value', sorted(headers) == sorted(want) and And(True, *[headers[k] == want[k] for k in want if k in headers]))
             return ('body-part', len(created))
 
         mod = v.real(AMP if asgi else MP)
@@ -297,7 +305,8 @@ def deserialize_form(v):
     rstripped = boundary.rstrip()
     options = {'boundary': boundary} if has else {}
     v.registry.add_model(m.parse_header, lambda I, ct: ('multipart/form-data', options))
-    handler = v.obj(MP + ':MultipartFormHandler', parse_options=object())
+    po = object()
+    handler = v.obj(MP + ':MultipartFormHandler', parse_options=po)
     made = []
 
     @stubclass
@@ -317,7 +326,8 @@ def deserialize_form(v):
         return mk_str(s.t, 'bytes')  # ASCII boundary: same code points
 
     v.ctx.ex.codec_handler = codec
-    out = v.call(handler, stream, 'multipart/form-data; boundary=x', v.int('content_length', 0), FormCls())
+    cl = v.int('content_length', 0) if v.choose(2, 'content-length-known?') else None
+    out = v.call(handler, stream, 'multipart/form-data; boundary=x', cl, FormCls())
     InvalidHeader = v.real('falcon.errors:HTTPInvalidHeader')
     n = Len(rstripped)
     ok = And(bool(has), n >= 1, n <= 70)
@@ -328,7 +338,49 @@ def deserialize_form(v):
         v.cover('rejected')
         return
     v.check('form-gets-stream-and-the-boundary-without-trailing-whitespace', len(made) == 1 and made[0][0] is stream and _same_text(made[0][1], rstripped))
+    v.check('form-gets-the-content-length-and-the-handler-parse-options', len(made) == 1 and made[0][2] is cl and made[0][3] is po)
     v.cover('accepted')
+
+
+def _deserialize_wrapper(asgi):
+    """deserialize / deserialize_async: the same boundary handling, building the form class of the interface (the form class is an optional
+    argument of _deserialize_form: omitted -> the WSGI MultipartForm)."""
+
+    def h(v):
+        if v.concrete:
+            return
+        import falcon.asgi.multipart as am
+        import falcon.media.multipart as m
+
+        v.expect_covers('delegated')
+        seen = []
+
+        def dform(I, self, stream, content_type, content_length, form_cls=None):
+            if form_cls is None:
+                # argument omitted: the default of the real function (read from the function object built from the current source)
+                form_cls = (m.MultipartFormHandler._deserialize_form.__defaults__ or (None,))[-1]
+            seen.append((self, stream, content_type, content_length, form_cls))
+            return 'FORM'
+
+        v.registry.stubs[MP + ':MultipartFormHandler._deserialize_form'] = dform
+        handler = v.obj(MP + ':MultipartFormHandler', parse_options=object())
+        stream, ct = object(), v.str('content_type')
+        cl = v.int('content_length', 0) if v.choose(2, 'content-length-known?') else None
+        out = v.call(handler, stream, ct, cl)
+        v.check('no-exception', out.exc is None)
+        if out.exc is not None:
+            return
+        want_cls = am.MultipartForm if asgi else m.MultipartForm
+        v.check('delegates-once-with-the-same-stream-type-and-length', len(seen) == 1 and seen[0][0] is handler and seen[0][1] is stream
+                and seen[0][2] is ct and seen[0][3] is cl and out.value == 'FORM')
+        v.check('builds-the-form-class-of-its-interface', len(seen) == 1 and seen[0][4] is want_cls)
+        v.cover('delegated')
+
+    return h
+
+
+harness(PROP, MP + ':MultipartFormHandler.deserialize', name='handler_deserialize[wsgi]')(_deserialize_wrapper(False))
+harness(PROP, MP + ':MultipartFormHandler.deserialize_async', name='handler_deserialize[asgi]')(_deserialize_wrapper(True))
 
 
 def _same_text(b, s):
@@ -492,19 +544,32 @@ def _cd_accessor(attr):
     def h(v):
         w = _acc_world(v, with_ct=False)
         UNSET = v.real(MP + ':_UNSET')
-        part = v.obj(MP + ':BodyPart', stream=None, _headers=w.headers, _parse_options=None, _content_disposition=None, _name=UNSET, _filename=UNSET)
+        # name and filename share the parsed Content-Disposition: it is either not parsed yet, or was parsed when the OTHER accessor was read first
+        pre = (not v.concrete) and bool(v.choose(2, 'content-disposition-already-parsed?'))
+        pr0 = _Params(v, 'h0') if pre else None
+        part = v.obj(MP + ':BodyPart', stream=None, _headers=w.headers, _parse_options=None, _content_disposition=(v.str('h0_main'), pr0) if pre else None,
+                     _name=UNSET, _filename=UNSET)
         out = v.call(part)
         if out.exc is not None:
-            v.check('undecodable-content-disposition-is-a-multipart-parse-error' if (v.concrete or not w.parsed) else 'only-multipart-parse-error-escapes',
+            v.check('undecodable-content-disposition-is-a-multipart-parse-error' if (v.concrete or (not w.parsed and not pre)) else 'only-multipart-parse-error-escapes',
                     out.exc.isa(w.MPE))
+            if pre:
+                v.check('content-disposition-parsed-for-the-other-accessor-is-reused', len(w.parsed) == 0)
             v.cover('raised')
             return
         if v.concrete:
             return
-        v.check('content-disposition-parsed-exactly-once', len(w.parsed) == 1)
-        if len(w.parsed) != 1:
-            return
-        pr = w.params[0]
+        if pre:
+            v.check('content-disposition-parsed-for-the-other-accessor-is-reused', len(w.parsed) == 0)
+            if len(w.parsed) != 0:
+                return
+            pr = pr0
+            v.cover('reused-the-parsed-header')
+        else:
+            v.check('content-disposition-parsed-exactly-once', len(w.parsed) == 1)
+            if len(w.parsed) != 1:
+                return
+            pr = w.params[0]
         if attr == 'name':
             nm = pr.seen.get('name')
             v.check('name-is-the-name-parameter-or-none', out.value is None if nm is None else out.value == nm)
@@ -519,7 +584,7 @@ def _cd_accessor(attr):
             v.check('filename-is-the-plain-parameter-or-none-without-an-extended-one', out.value is None if plain is None else out.value == plain)
         # memoised: a second access does not decode or parse again
         out2 = v.call(part)
-        v.check('second-access-returns-the-same-without-parsing-again', out2.exc is None and len(w.parsed) == 1
+        v.check('second-access-returns-the-same-without-parsing-again', out2.exc is None and len(w.parsed) == (0 if pre else 1)
                 and (out2.value is out.value or out2.value == out.value))
         v.cover('returned')
 
@@ -705,11 +770,26 @@ KILLS = [
      'asgi.multipart:BodyPart.get_text#text-is-returned-iff-the-media-type-is-text-plain'),
     (_AMPF, "            finally:\n                if handler.exhaust_stream:\n                    await self.stream.exhaust()\n", "            finally:\n                pass\n",
      'asgi.multipart:BodyPart.get_media#stream-exhausted-exactly-once'),
+    # --- inputs that used to be fixed in the harnesses
+    # Content-Disposition lines never occurred among the header lines of the iteration harness: the header is no longer kept
+    (_MPF, "        b'content-disposition',\n", "", 'every-allowed-content-header-line-is-kept-with-its-value'),
+    # name read after filename (Content-Disposition already parsed) parses the header again
+    (_MPF, "        if self._name is _UNSET:\n            if self._content_disposition is None:\n", "        if self._name is _UNSET:\n            if True:\n",
+     'BodyPart.name#content-disposition-parsed-for-the-other-accessor-is-reused'),
+    # the ASGI handler builds the WSGI form class / the form is built without the known content length
+    (_MPF, "            stream, content_type, content_length, form_cls=self._ASGI_MULTIPART_FORM\n", "            stream, content_type, content_length\n",
+     'MultipartFormHandler.deserialize_async#builds-the-form-class-of-its-interface'),
+    (_MPF, "        return form_cls(stream, boundary.encode(), content_length, self.parse_options)", "        return form_cls(stream, boundary.encode(), None, self.parse_options)",
+     '_deserialize_form#form-gets-the-content-length-and-the-handler-parse-options'),
 ]
 
 ASSUMPTIONS = [
     'the buffered reader satisfies its flat-cursor contract (C14): read(n) returns the next min(n, rest) bytes; delimiter searches either succeed or raise DelimiterError',
-    'a header block is observed through split(CRLF) as 0..2 lines, each with or without a ": " separator',
+    'a header block is observed through split(CRLF) as 0..2 lines, each with or without a ": " separator; header names are the concrete spellings '
+    'Content-Type, CONTENT-Disposition, X-Custom, Content-Transfer-Encoding (two spellings), values arbitrary bytes',
+    'inputs left at one value: the boundary of the iteration harness is the concrete b"BOUNDARY" (it only travels to the reader stub, which does not '
+    'compare delimiters: the delimiter search is C14 / NOT_DECIDED below); parse_header() in _deserialize_form answers the main type '
+    '"multipart/form-data" (the function ignores it); the Content-Type text handed to _deserialize_form is a constant (it only reaches parse_header and an error message)',
 ]
 NOT_DECIDED = [
     '"iterating yields exactly the encoded parts (name, filename, content type, exact content bytes) for every body, chunking and consumption pattern": '
